@@ -1,9 +1,101 @@
-(* Contexts and loopback (containers/context.py BagContext / ChainContext / IdentityContext / NoContext,
-   containers/base.py EdgesBag.loopback) for chains of the layer kinds below, at name level: one forward field x,
-   one backward field y.  Hand-written; tied to /repo by the correspondence of C10. *)
+(* Contexts and loopback (containers/context.py BagContext / ChainContext / IdentityContext, containers/base.py
+   EdgesBag.loopback, layers/base.py _decorate) for chains of layers, at name level: one forward field x, any
+   number of backward fields.  Hand-written; tied to /repo by the correspondence of C10. *)
 From Connectome Require Import Values.
 Local Open Scope list_scope.
 
+Definition sym (p : string) (i : nat) : string := p ++ String (Ascii.ascii_of_nat (48 + i)) "".
+Definition env := list (string * val).          (* the backward fields that are reachable, with their values *)
+Fixpoint elookup (e : env) (n : string) : option val :=
+  match e with [] => None | (k, v) :: t => if String.eqb n k then Some v else elookup t n end.
+Fixpoint smem (n : string) (l : list string) : bool :=
+  match l with [] => false | k :: t => String.eqb n k || smem n t end.
+Fixpoint all_some {A} (l : list (option A)) : option (list A) :=
+  match l with
+  | [] => Some []
+  | Some x :: t => match all_some t with Some r => Some (x :: r) | None => None end
+  | None :: _ => None
+  end.
+
+(* a layer: its forward part on x, its @inverse fields, what it inherits *)
+Inductive fwd := FDef (with_param : bool) | FInherit.      (* x = F(x[, _p]), or x passes iff it is inherited *)
+Inductive inh := InhAll | InhList (l : list string).
+Record bdef := { bd_out : string; bd_fn : string; bd_args : list string; bd_param : bool }.
+Record blayer := { bl_id : nat; bl_fwd : fwd; bl_defs : list bdef; bl_inh : inh; bl_cache : bool }.
+Definition inherits (i : inh) (n : string) : bool := match i with InhAll => true | InhList l => smem n l end.
+
+(* the context of a layer, holding the forward value of its parameter as it is when the layer is connected *)
+Inductive ctx :=
+| CId                                               (* IdentityContext: propagate everything *)
+| CBag (defs : list bdef) (i : inh) (param : val)   (* BagContext: backward inputs, backward outputs, inherit *)
+| CChain (prev cur : ctx).                          (* ChainContext(previous, current) *)
+
+(* BagContext.reverse: stitch the backward inputs that are present, keep the backward outputs whose inputs are all
+   reachable, let inherited names that the layer does not define pass through *)
+Definition bstep (defs : list bdef) (i : inh) (param : val) (e : env) : env :=
+  flat_map (fun d => match all_some (map (elookup e) (bd_args d)) with
+                     | Some vs => [(bd_out d, VApp (bd_fn d) (vs ++ if bd_param d then [param] else []) [])]
+                     | None => [] end) defs
+  ++ filter (fun nv => inherits i (fst nv) && negb (smem (fst nv) (map bd_out defs))) e.
+
+Fixpoint reverse (c : ctx) (e : env) : env :=
+  match c with
+  | CId => e
+  | CBag defs i p => bstep defs i p e
+  | CChain prev cur => reverse prev (reverse cur e)       (* current first, then previous *)
+  end.
+
+(* one layer connected after the forward value x (None: x is no longer available) *)
+Definition param_of (l : blayer) (x : val) : val := VApp (sym "P" (bl_id l)) [x] [].
+Definition fwd_layer (l : blayer) (x : option val) : option val :=
+  if bl_cache l then x
+  else match bl_fwd l, x with
+       | FDef true, Some v => Some (VApp (sym "F" (bl_id l)) [v; param_of l v] [])
+       | FDef false, Some v => Some (VApp (sym "F" (bl_id l)) [v] [])
+       | FInherit, _ => if inherits (bl_inh l) "x" then x else None
+       | FDef _, None => None
+       end.
+Definition ctx_layer (l : blayer) (x : option val) : ctx :=
+  if bl_cache l then CId
+  else CBag (bl_defs l) (bl_inh l) (match x with Some v => param_of l v | None => VNone end).
+
+(* Chain(l1, ..., ln): connect_bags from the left, ChainContext(left.context, right.context) *)
+Fixpoint connect_chain (x : option val) (c : ctx) (ls : list blayer) : option val * ctx :=
+  match ls with
+  | [] => (x, c)
+  | l :: rest => connect_chain (fwd_layer l x) (CChain c (ctx_layer l x)) rest
+  end.
+Definition chain (x0 : val) (ls : list blayer) : option val * ctx :=
+  match ls with
+  | [] => (Some x0, CId)
+  | l :: rest => connect_chain (fwd_layer l (Some x0)) (ctx_layer l (Some x0)) rest
+  end.
+
+(* layer._decorate('x', outs, final)(f) applied to x0: forward through the chain, f (field o of its result is
+   f_o(x)), back through the contexts; rejected when a requested field is not reachable *)
+Definition f_outputs (outs : list string) (x : val) : env := map (fun o => (o, VApp ("f_" ++ o) [x] [])) outs.
+Definition loopback (x0 : val) (ls : list blayer) (outs final : list string) : option (list val) :=
+  match chain x0 ls with
+  | (Some x, c) => all_some (map (elookup (reverse c (f_outputs outs x))) final)
+  | (None, _) => None
+  end.
+
+(* ---------- the specification, as the property states it ---------- *)
+Fixpoint forward (x : option val) (ls : list blayer) : option val :=
+  match ls with [] => x | l :: rest => forward (fwd_layer l x) rest end.
+(* the backward parts of the layers in reverse order; each sees the parameter computed in ITS layer's forward pass *)
+Fixpoint backward (x : option val) (ls : list blayer) (e : env) : env :=
+  match ls with
+  | [] => e
+  | l :: rest => reverse (ctx_layer l x) (backward (fwd_layer l x) rest e)
+  end.
+Definition loopback_spec (x0 : val) (ls : list blayer) (outs final : list string) : option (list val) :=
+  match forward (Some x0) ls with
+  | Some x => all_some (map (elookup (backward (Some x0) ls (f_outputs outs x))) final)
+  | None => None
+  end.
+
+(* ---------- the six layer kinds of the first version of this model, as instances ---------- *)
 Inductive lkind :=
 | KInv (i : nat)            (* _p = P_i(x); x = F_i(x, _p); y = inverse I_i(y, _p) *)
 | KInvNoParam (i : nat)     (* x = F_i(x); y = inverse I_i(y) *)
@@ -11,81 +103,23 @@ Inductive lkind :=
 | KInhList                  (* Transform(__inherit__=['x', 'y']) *)
 | KFwdOnly (i : nat)        (* x = F_i(x), no inverse, nothing inherited *)
 | KCache.                   (* CacheToRam(): IdentityContext *)
-
-Definition sym (p : string) (i : nat) : string := p ++ String (Ascii.ascii_of_nat (48 + i)) "".
-
-(* the context of a layer, with the forward expressions of its parameters as they are when the layer is connected *)
-Inductive ctx :=
-| CId                                   (* IdentityContext: propagate everything *)
-| CInv (i : nat) (param : option val)   (* BagContext of an invertible layer; Some p: the forward value of _p *)
-| CInherit                              (* BagContext with no backward fields, y inherited *)
-| CNothing                              (* BagContext with no backward fields and nothing inherited *)
-| CChain (prev cur : ctx).              (* ChainContext(previous, current) *)
-
-(* one layer: the new forward value of x and the layer's context *)
-Definition connect_layer (x : val) (k : lkind) : val * ctx :=
+Definition layer_of (k : lkind) : blayer :=
   match k with
-  | KInv i => let p := VApp (sym "P" i) [x] [] in (VApp (sym "F" i) [x; p] [], CInv i (Some p))
-  | KInvNoParam i => (VApp (sym "F" i) [x] [], CInv i None)
-  | KInhAll | KInhList => (x, CInherit)
-  | KFwdOnly i => (VApp (sym "F" i) [x] [], CNothing)
-  | KCache => (x, CId)
+  | KInv i => {| bl_id := i; bl_fwd := FDef true; bl_defs := [{| bd_out := "y"; bd_fn := sym "I" i; bd_args := ["y"]; bd_param := true |}];
+                 bl_inh := InhList []; bl_cache := false |}
+  | KInvNoParam i => {| bl_id := i; bl_fwd := FDef false; bl_defs := [{| bd_out := "y"; bd_fn := sym "I" i; bd_args := ["y"]; bd_param := false |}];
+                        bl_inh := InhList []; bl_cache := false |}
+  | KInhAll => {| bl_id := 0; bl_fwd := FInherit; bl_defs := []; bl_inh := InhAll; bl_cache := false |}
+  | KInhList => {| bl_id := 0; bl_fwd := FInherit; bl_defs := []; bl_inh := InhList ["x"; "y"]; bl_cache := false |}
+  | KFwdOnly i => {| bl_id := i; bl_fwd := FDef false; bl_defs := []; bl_inh := InhList []; bl_cache := false |}
+  | KCache => {| bl_id := 0; bl_fwd := FInherit; bl_defs := []; bl_inh := InhAll; bl_cache := true |}
   end.
 
-(* Chain(l1, ..., ln): connect_bags from the left, ChainContext(left.context, right.context) *)
-Fixpoint connect_chain (x : val) (c : ctx) (ks : list lkind) : val * ctx :=
-  match ks with
-  | [] => (x, c)
-  | k :: rest => let (x', ck) := connect_layer x k in connect_chain x' (CChain c ck) rest
-  end.
-Definition chain (x0 : val) (ks : list lkind) : val * ctx :=
-  match ks with
-  | [] => (x0, CId)
-  | k :: rest => let (x, c) := connect_layer x0 k in connect_chain x c rest
-  end.
-
-(* Context.reverse on the single backward value y: None when y is not among the outputs any more *)
-Fixpoint reverse (c : ctx) (y : option val) : option val :=
-  match c with
-  | CId => y
-  | CInv i p => match y with
-                | Some v => Some (VApp (sym "I" i) (v :: match p with Some pv => [pv] | None => [] end) [])
-                | None => None end
-  | CInherit => y
-  | CNothing => None
-  | CChain prev cur => reverse prev (reverse cur y)       (* current first, then previous *)
-  end.
-
-(* layer._decorate('x', 'y')(f) applied to x0: forward through the chain, f, back through the contexts *)
-Definition loopback (x0 : val) (ks : list lkind) : option val :=
-  let (x, c) := chain x0 ks in reverse c (Some (VApp "f" [x] [])).
-
-(* ---------- the specification, as the property states it ---------- *)
-Fixpoint forward (x : val) (ks : list lkind) : val :=
-  match ks with [] => x | k :: rest => forward (fst (connect_layer x k)) rest end.
-(* inverses of the layers in reverse order; each inverse sees the parameter computed in ITS layer's forward pass *)
-Fixpoint backward (x : val) (ks : list lkind) (y : val) : option val :=
-  match ks with
-  | [] => Some y
-  | k :: rest =>
-      match backward (fst (connect_layer x k)) rest y with
-      | None => None
-      | Some v =>
-          match k with
-          | KInv i => Some (VApp (sym "I" i) [v; VApp (sym "P" i) [x] []] [])
-          | KInvNoParam i => Some (VApp (sym "I" i) [v] [])
-          | KInhAll | KInhList | KCache => Some v
-          | KFwdOnly _ => None
-          end
-      end
-  end.
-Definition loopback_spec (x0 : val) (ks : list lkind) : option val :=
-  backward x0 ks (VApp "f" [forward x0 ks] []).
-
-Record lb_case := { lb_kinds : list lkind; lb_result : option val }.
+(* ---------- comparison with the real layers (case shards of C10) ---------- *)
+Record lb_case := { lb_layers : list blayer; lb_outs : list string; lb_final : list string; lb_result : option (list val) }.
 Definition check_loopback (c : lb_case) : nat :=
-  match loopback (VStr "x0") (lb_kinds c), lb_result c with
-  | Some v, Some w => if veqb v w then 0 else 1
+  match loopback (VStr "x0") (lb_layers c) (lb_outs c) (lb_final c), lb_result c with
+  | Some v, Some w => if list_eqb veqb v w then 0 else 1
   | None, None => 0
   | _, _ => 2
   end.
